@@ -402,3 +402,5 @@ PROP = Prop(
                  "sizes of exactly 100 are skipped for the dynamic-choice clause (docs say both "
                  "'>100' and 'at least 100')"],
 )
+
+RULE_EXTRA = ('uint8/uint16/int8/float32/bool sources; sources with few scored and up to 600 easy samples per class.')
